@@ -62,24 +62,49 @@ def check(an, rep, tier):
     from .. import paths as _paths
     fsv = an.prog.func('svd.svd_incomplete')
     steps, widths = [], []
+    ipar, ypar, many_par = fsv.params[0], fsv.params[1], fsv.params[3]
+    import copy as _copy
+    loops_ = [n_ for n_ in _ast.walk(fsv.node) if isinstance(n_, _ast.For)
+              and isinstance(n_.target, _ast.Name)]
+    mode_var = loops_[0].target.id if loops_ else None
+
+    def canon(node):
+        class R(_ast.NodeTransformer):
+            def visit_Name(self, n_):
+                return _ast.Name(id='$mode' if n_.id == mode_var else n_.id,
+                                 ctx=_ast.Load())
+        return _ast.dump(R().visit(_copy.deepcopy(node)))
+    want = canon(_ast.parse('%s[%s]' % (many_par, mode_var or 'mode'),
+                            mode='eval').body)
+    # names bound to a row block of the sample array (parameter 1)
+    blocks_ = {n_.targets[0].id for n_ in _ast.walk(fsv.node)
+               if isinstance(n_, _ast.Assign) and
+               isinstance(n_.targets[0], _ast.Name) and
+               isinstance(n_.value, _ast.Subscript) and
+               isinstance(n_.value.value, _ast.Name) and
+               n_.value.value.id == ipar}
     for node in _ast.walk(fsv.node):
         if isinstance(node, _ast.Subscript) and \
                 isinstance(node.value, _ast.Name) and \
-                node.value.id == 'I_curr' and \
+                node.value.id in blocks_ and \
                 isinstance(node.slice, _ast.Tuple) and \
                 isinstance(node.slice.elts[0], _ast.Slice) and \
                 node.slice.elts[0].step is not None:
-            steps.append(_paths.src(fsv.module, node.slice.elts[0].step
-                                    ).replace(' ', ''))
+            steps.append(canon(node.slice.elts[0].step))
         if isinstance(node, _ast.Call) and \
                 isinstance(node.func, _ast.Attribute) and \
                 node.func.attr == 'reshape' and len(node.args) == 2 and \
                 isinstance(node.args[0], _ast.UnaryOp):
-            base = _paths.src(fsv.module, node.func.value).replace(' ', '')
-            if base.startswith('Y[idx[mode]'):
-                widths.append(_paths.src(fsv.module, node.args[1]
-                                         ).replace(' ', ''))
-    okc = steps == ['idx_many[mode]'] and widths == ['idx_many[mode]']
+            base = node.func.value
+            if isinstance(base, _ast.Subscript) and \
+                    isinstance(base.value, _ast.Name) and \
+                    base.value.id == ypar and \
+                    any(isinstance(x, _ast.Name) and x.id == mode_var
+                        for x in _ast.walk(base.slice)):
+                widths.append(canon(node.args[1]))
+    okc = steps == [want] and widths == [want]
+    steps = ['idx_many[mode]' if x == want else 'other' for x in steps]
+    widths = ['idx_many[mode]' if x == want else 'other' for x in widths]
     rep.add('S-consumer', 'svd.svd_incomplete', 'row stride %s / block width '
             '%s' % (steps, widths), 'ok' if okc else 'violation',
             '' if okc else 'the producer lays the samples of one mode out as '
